@@ -401,3 +401,5 @@ PROPS["C12"]["mir"].append(ob("observer_requests_typed_c12", "ob_worker", "obser
 PROPS["C13"]["mir"].append(ob("storage_background_requests", "ob_worker", "storage_background_requests"))
 PROPS["C13"]["mir"].append(ob("storage_close_dumps", "ob_worker", "storage_close_dumps"))
 PROPS["C12"]["mir"].append(ob("storage_close_dumps_c12", "ob_worker", "storage_close_dumps"))
+PROPS["C01"]["mir"].append(ob("storage_read_glue", "ob_blobread", "storage_read_glue"))
+PROPS["C02"]["mir"].append(ob("storage_read_glue_c02", "ob_blobread", "storage_read_glue"))
